@@ -527,8 +527,8 @@ def r_chunk(F, R, cat=None):
         R.saw(b)
         ctx, effs = cat.effects(b)
         for e in effs:
-            if e.cls != "assign" or e.ctx is not ctx or not e.targets:
-                continue
+            if e.cls != "assign" or not e.targets:
+                continue  # (the store may sit in a closure handed to bool::then & co.)
             tgts = [(c, o) for (c, o) in e.targets if c is ctx and o[0] == ("arg", 1)]
             if not tgts:
                 continue
@@ -541,7 +541,7 @@ def r_chunk(F, R, cat=None):
             where = "%s:%s" % (b.file, e.line)
             # the bound the cursor is compared against
             ends = []
-            for f in facts_at(ctx, e.bb):
+            for f in facts_at(e.ctx, e.bb):
                 f = tuple(nobb(x) if isinstance(x, tuple) else x for x in f)
                 if f[0] == "Lt" and f[1] == cur and f[2][0] == "place":
                     ends.append(f[2])
@@ -566,8 +566,8 @@ def r_chunk(F, R, cat=None):
                     ok, why = True, "chunk = min(.., end - cursor)"
             if not ok:
                 need = lin_sub(rem, nlin_)  # must be >= 0
-                for f in facts_at(ctx, e.bb):
-                    if f[0] not in ("Ge", "Gt", "Le", "Lt") or not fact_holds_(ctx, f, e.bb):
+                for f in facts_at(e.ctx, e.bb):
+                    if f[0] not in ("Ge", "Gt", "Le", "Lt") or not fact_holds_(e.ctx, f, e.bb):
                         continue
                     op, x, y = f[0], nobb(f[1]), nobb(f[2])
                     if op in ("Le", "Lt"):
